@@ -1807,6 +1807,9 @@ func cfRunRegressions(e *cfEnv) {
 		// stale global index after a failed fragment (re-used table, Eval)
 		{{`a := "s1"; b := "s2"; global g; return undefinedName`, true}, {`return g`, true}},
 		{{`global g; return undefinedName`, true}, {`x := "zzz"; y := "g2"; return g`, true}},
+		// SetParams failing half-way left numParams > defined symbols
+		{{`param (a, a)`, true}, {`return a`, true}},
+		{{`param (p, q, p)`, true}, {`x := 1; return x`, true}},
 		// stale module store after a failed fragment (Eval)
 		{{`"pad"; x := import("ok"); return undefinedName`, true}, {`return import("ok")`, true}},
 		{{`"pad"; x := import("b1"); y := import("ok2"); return undefinedName`, true}, {`return [import("b1"), import("ok2"), import("ok")]`, true}},
@@ -1840,7 +1843,7 @@ const cfRuleText = "inputs: (a) arbitrary byte strings: random bytes, random pri
 	"(b) 1-3 token-level mutations (delete, duplicate, swap, replace, unbalanced bracket, truncation, splice, raw bytes, odd literal, repetition, keyword swap; token boundaries from the real scanner) of gen.Program scripts; " +
 	"(c) gen.Program scripts under varied generator options and a hand-written pool of 460 scripts covering every statement / expression form, valid and invalid (const/iota, destructuring, param/global in wrong scopes, try/catch/finally exits, for-in, closures, imports of good / broken / cyclic / missing / limit-overflowing / non-source modules, selector and index chains, compound assignment, literal conditions, zero divisors, shadowed builtins); " +
 	"(d) 31 nesting shapes at depths up to 10000 (parentheses, right-nested binary, try, ternary, selector, index, call, slice chains), 3000 (unary chains, arrays, maps, if / for / else-if, left-nested binary and logical chains, const chains, call arguments: compile time is quadratic in the depth) and 1000 / 500 with the optimizer (function literals); tracing only to depth 60. 200000 nested parentheses still compile, 1000000 overflow Go's 1 GB stack: a fatal stack overflow cannot be recovered and is outside the property, so the caps stay 20x below the last depth known to work. " +
-	"Every input goes through ugo.Compile (random option combination per random input; the full cross product NoOptimize x OptimizerLimit{0,1,2} x trace{off, all+writer, all+nil writer, parser, compiler, optimizer} x ModuleMap{nil, 40 modules incl. an ExtImporter} x SymbolTable{nil, fresh, DisableBuiltin, predefined globals, predefined params} on the pool), as the source module of `import(\"m\")`, through Eval sessions of 2-5 fragments (after a successful and after a failed fragment; random / mutated fragments are compiled by Eval.Run under a cancelled context, runnable ones get a 50 ms deadline) and through ugo.Compile with a re-used SymbolTable + Constants; each call under recover with a watchdog (10 s, 120-180 s for the deep / boundary scripts): panic => C05:compile-panic:<class of the top ugo frame>, no return => C05:compile-hang. " +
+	"Every input goes through ugo.Compile (random option combination per random input; the full cross product NoOptimize x OptimizerLimit{0,1,2} x trace{off, all+writer, all+nil writer, parser, compiler, optimizer} x ModuleMap{nil, 40 modules incl. an ExtImporter} x SymbolTable{nil, fresh, DisableBuiltin, predefined globals, predefined params} on the pool), as the source module of `import(\"m\")`, through Eval sessions of 2-5 fragments (after a successful and after a failed fragment; random / mutated fragments are compiled by Eval.Run under a cancelled context, runnable ones get a 50 ms deadline) and through ugo.Compile with a re-used SymbolTable + Constants; each call under recover with a watchdog (60 s, 120-180 s for the deep / boundary scripts): panic => C05:compile-panic:<class of the top ugo frame>, no return => C05:compile-hang. " +
 	"Boundary scripts generated mechanically at and one beyond each operand width (locals at top level / in a function / var group / params / variadic / nested and sibling blocks / hidden for-in, destructuring and catch locals: 256; call, method-call and spread arguments: 255; array and return-list elements: 65535; map elements: 32767; constants: 65536; free variables: 255, also through two levels; index chains: 255, assignment chains: 256, right-hand selector chains: unlimited; break / continue under try depth: 255, return: unlimited; builtin module imports: 65536; a forward jump over 70 KB of instructions) with NoOptimize on and off, via Compile, Eval.Run and as a source module: at the limit Bytecode, beyond it an error (C05:limit:<what>). A jump distance of 2^31 cannot be reached (it needs a 2 GiB instruction stream). " +
 	"Every Bytecode returned anywhere in the stream is scanned (main and every CompiledFunction constant): known opcodes, no truncated instruction, agreement with IterateInstructions, jump / try targets on instruction boundaries strictly inside the function, constant / closure / module / global (String constant) / local (< NumLocals <= 256, NumParams <= NumLocals) / builtin indices in range, free-variable indices below the free count of the CLOSURE sites that create the function (functions with no creating site in the scanned Bytecode, e.g. those of earlier fragments, are not checked), CALL flags and RETURN / THROW operands in {0,1}, even MAP operand, last instruction RETURN, source-map keys on boundaries (C05:malformed-bytecode:<what>). " +
 	"Scripts that parse (classes b, c, d to depth 200, the pool and the small boundary scripts) are also sent to the Lean compiler model as `compile` requests (NoOptimize, no modules); distinct = distinct instruction-stream hash or error position. " +
@@ -1854,9 +1857,9 @@ func init() {
 		Same: compileSame,
 		Run: func(c *Ctx) {
 			c.Rule(cfRuleText)
-			e := &cfEnv{c: c, sink: &cfSink{}, mods: cfBaseModules(), timeout: 10 * time.Second, hungCfg: map[string]bool{}, modelCap: 60 << 20}
+			e := &cfEnv{c: c, sink: &cfSink{}, mods: cfBaseModules(), timeout: 60 * time.Second, hungCfg: map[string]bool{}, modelCap: 60 << 20}
 			if c.Scale > 1 {
-				e.modelCap = 400 << 20
+				e.modelCap = 200 << 20
 			}
 			for _, ph := range []struct {
 				name string
@@ -1873,8 +1876,6 @@ func init() {
 			}
 			c.dist["trace-bytes-written>0"] = b2i(e.sink.n.Load() > 0)
 			if e.hangs > 0 {
-				// leave quickly: a leaked goroutine may be allocating
-				c.cases = nil
 				c.Count("aborted-after-hang")
 			}
 		},
